@@ -112,6 +112,8 @@ type VerifDriverT struct {
 	LogFile *os.File
 	Seq     int64
 	Hook    func(ev *VerifEvent)
+	memOps  uint64
+	RealOps uint64 // accesses to in-memory devices that went through the real accessor
 }
 
 var VerifDriver *VerifDriverT
@@ -143,19 +145,33 @@ func verifParse(text string, path string) (int, error) {
 
 var verifScratch string
 
+// VerifScratchDir: where the scratch file of verifParseReal/memStore lives (harness work directory; for the daemon
+// FAN2GO_VERIF_SCRATCH_DIR); default /dev/shm
+var VerifScratchDir = os.Getenv("FAN2GO_VERIF_SCRATCH_DIR")
+
 // verifParseReal writes the content to a scratch file and lets the original ReadIntFromFile read it.
-func verifParseReal(text string, path string) (int, error) {
+func verifScratchReady() bool {
 	if verifScratch == "" {
-		dir := "/dev/shm"
+		dir := VerifScratchDir
+		if dir == "" {
+			dir = "/dev/shm"
+		}
 		if st, err := os.Stat(dir); err != nil || !st.IsDir() {
 			dir = os.TempDir()
 		}
 		f, err := os.CreateTemp(dir, "fan2go-verif-content-")
 		if err != nil {
-			return verifParse(text, path)
+			return false
 		}
 		verifScratch = f.Name()
 		_ = f.Close()
+	}
+	return true
+}
+
+func verifParseReal(text string, path string) (int, error) {
+	if !verifScratchReady() {
+		return verifParse(text, path)
 	}
 	if err := os.WriteFile(verifScratch, []byte(text), 0644); err != nil {
 		return verifParse(text, path)
@@ -200,11 +216,48 @@ func (d *VerifDriverT) record(ev VerifEvent) {
 	}
 }
 
+// VerifRealEvery: every n-th access to a device held in memory goes through the repository's real accessor
+// (ReadIntFromFile parses the content the way sysfs presents it, "<n>\n"; WriteIntToFile produces the bytes that
+// are stored), so that util/file.go itself is on the path of the in-process checks. 0 = never.
+var VerifRealEvery = 16
+
 func (d *VerifDriverT) rawRead(path string) (int, error) {
 	if c, ok := d.Mem[path]; ok {
+		d.memOps++
+		if VerifRealEvery > 0 && d.memOps%uint64(VerifRealEvery) == 0 {
+			d.RealOps++
+			if c != "" && !strings.HasSuffix(c, "\n") {
+				c += "\n"
+			}
+			return verifParseReal(c, path)
+		}
 		return verifParse(c, path)
 	}
 	return ReadIntFromFileOrig(path)
+}
+
+// memStore: the bytes a write leaves in a device held in memory. Every n-th write is made by the real writer on a
+// regular file that holds the device's current content (what a file fan, or a hwmon fan on a fake sysfs tree, is).
+func (d *VerifDriverT) memStore(old string, value int, atomicWrite bool) string {
+	d.memOps++
+	if VerifRealEvery > 0 && d.memOps%uint64(VerifRealEvery) == 0 && verifScratchReady() {
+		err := os.WriteFile(verifScratch, []byte(old), 0644)
+		if err != nil {
+			return strconv.Itoa(value)
+		}
+		if atomicWrite {
+			err = WriteIntToFileAtomicOrig(value, verifScratch)
+		} else {
+			err = WriteIntToFileOrig(value, verifScratch)
+		}
+		if err == nil {
+			if b, rerr := os.ReadFile(verifScratch); rerr == nil {
+				d.RealOps++
+				return string(b)
+			}
+		}
+	}
+	return strconv.Itoa(value)
 }
 
 func (d *VerifDriverT) read(path string) (value int, err error) {
@@ -266,7 +319,16 @@ func (d *VerifDriverT) write(value int, path string, atomicWrite bool) (err erro
 			ev.Action = "quant"
 		}
 		if _, ok := d.Mem[path]; ok {
-			d.Mem[path] = strconv.Itoa(store)
+			stored := d.memStore(d.Mem[path], store, atomicWrite)
+			d.Mem[path] = stored
+			if strings.TrimSpace(stored) != strconv.Itoa(store) {
+				// the real writer left something else in the file: report what the device now holds
+				ev.Action = "stored-differs"
+				ev.Val = -1
+				if n, perr := strconv.Atoi(strings.TrimSpace(stored)); perr == nil {
+					ev.Val = n
+				}
+			}
 		} else if atomicWrite {
 			err = WriteIntToFileAtomicOrig(store, path)
 		} else {
